@@ -4,7 +4,10 @@
 (* Every event is one delivered (forged or genuine) announcement:           *)
 (*  {"ev":"case","len":L,"op":OP,"depth":D,"seen":B,"accepted":B,"path":[..], *)
 (*   seen      = the victim had already processed the genuine announcement    *)
-(*   "via":N,"nexthop":N,"unchanged":B,"genuine":B}                          *)
+(*   "via":N,"nexthop":N,"unchanged":B,"genuine":B,"peer":N}                 *)
+(*   peer      = op "handover" only (0 otherwise): the peer of the victim that *)
+(*               hands over the copy whose chain is the genuine suffix         *)
+(*               depth..len (9 origin, 8 uninvolved peer, i = i-th forwarder)  *)
 (*   accepted  = a route to the origin was installed / refreshed             *)
 (*   path      = routers of the installed route between victim and origin    *)
 (*               (1 = delivering forwarder, i = i-th forwarder, 7/8 others)   *)
@@ -21,12 +24,12 @@ Ev == Trace[l]
 TraceInit == l = 1 /\ Init
 
 CaseOK ==
-  LET want == PropAccept(Ev.len, Ev.op, Ev.depth)
+  LET want == PropAccept(Ev.len, Ev.op, Ev.depth, Ev.peer)
   IN /\ Ev.accepted => want
      /\ (want /\ ~Ev.seen) => Ev.accepted                        \* (a copy of an announcement already processed may be a no-op)
      /\ Ev.accepted =>
                 /\ Ev.path = Path(Ev.len, Ev.op, Ev.depth)       \* exactly the routers whose records were attached, in order
-                /\ Ev.nexthop = Deliverer(Ev.len, Ev.op)          \* next hop is the peer that delivered it
+                /\ Ev.nexthop = Deliverer(Ev.len, Ev.op, Ev.peer)          \* next hop is the peer that delivered it
                 /\ Ev.genuine
      /\ ~want => Ev.unchanged                                     \* rejected: neither table nor forwarded frames change
 
